@@ -110,6 +110,7 @@ type c19Case struct {
 	outIsInput bool   // the output path of one of the targets is the input file
 	outLink    string // when set: the -o argument is this symbolic link, which points to outDir
 	inLink     bool   // the -i argument is a symbolic link (via/<name>) to the input file, which lies where inputName says
+	inLinkName string // when set: the -i argument is via/<inLinkName>, a symbolic link to the input file (another name than the file's)
 	staleTwin  bool   // the stale outputs have the size of the new outputs and are newer than the input
 	invoke     string // "" = absolute path of the binary, "path" = bare name found through PATH, "symlink" = through a symbolic link in the work directory, "relative" = relative path from a sub directory
 	badArgs    []string // complete argument list for bad-option cases (placeholders IN, OUT)
@@ -157,6 +158,18 @@ func checkC19(c *Check) {
 		for _, ts := range [][]string{{"bash"}, {"batch"}, {"bash", "batch"}} {
 			name := strings.Repeat("n", stem) + ".tsh"
 			cases = append(cases, c19Case{key: fmt.Sprintf("long-name/stem=%d/t=%s", stem, strings.Join(ts, "+")), prog: progs[0], inputName: name, outDir: "out", targets: ts, argOrder: "iot", stale: stem%2 == 0})
+		}
+	}
+	// the input named through a symbolic link whose name differs from the file's: the output carries the link's stem
+	for pi, p := range progs {
+		if len(p.files) != 1 {
+			continue
+		}
+		for li, ln := range []string{"prog.tsh", "other name.tsh", "noext"} {
+			if (pi+li)%3 != 0 && pi > 1 {
+				continue
+			}
+			cases = append(cases, c19Case{key: fmt.Sprintf("input-link-other-name/%s/link=%s", p.name, hexKey(ln)), prog: p, inputName: "real/prog-v2.tsh", outDir: "out", targets: tsets[(pi+li)%4], argOrder: "iot", inLinkName: ln, stale: li == 0})
 		}
 	}
 	// repeated targets and every program once with the plain command line (always)
@@ -300,6 +313,13 @@ func c19Run(c *Check, cs c19Case, straceOK bool) {
 	}
 	base := filepath.Base(inRel)
 	base = base[:len(base)-len(filepath.Ext(base))]
+	if cs.inLinkName != "" {
+		// the input is named through a symbolic link of another name: the output is named after what -i says
+		os.MkdirAll(filepath.Join(work, "via"), 0o755)
+		rel, _ := filepath.Rel(filepath.Join(work, "via"), filepath.Join(work, inRel))
+		os.Symlink(rel, filepath.Join(work, "via", cs.inLinkName))
+		base = cs.inLinkName[:len(cs.inLinkName)-len(filepath.Ext(cs.inLinkName))]
+	}
 	expectFiles := map[string]string{} // relative to work -> expected content, for successful targets
 	earlyRefs := map[string]TResult{}
 	if cs.staleTwin {
@@ -347,6 +367,9 @@ func c19Run(c *Check, cs c19Case, straceOK bool) {
 	}
 	// reference outputs from the library
 	inAbs := filepath.Join(work, inRel)
+	if cs.inLinkName != "" {
+		inAbs = filepath.Join(work, "via", cs.inLinkName)
+	}
 	refs := map[string]TResult{}
 	for _, t := range cs.targets {
 		if _, ok := refs[t]; !ok {
@@ -374,6 +397,9 @@ func c19Run(c *Check, cs c19Case, straceOK bool) {
 		inArg := inRel
 		if cs.absInput {
 			inArg = inAbs
+		}
+		if cs.inLinkName != "" {
+			inArg = filepath.Join("via", cs.inLinkName)
 		}
 		if cs.inLink {
 			os.MkdirAll(filepath.Join(work, "via"), 0o755)
